@@ -338,6 +338,8 @@ class SigmaCorrelationTimespan:
             sigma_exceptions.SigmaTimespanError: If the given time span is invalid.
         """
         try:
+            if not isinstance(self.spec, str):
+                raise ValueError("Timespan must be a string")
             self.count = int(self.spec[:-1])
             self.unit = self.spec[-1]
             self.seconds = (
